@@ -267,3 +267,21 @@ def run(ck):
     other = sorted({m.split('::')[-1] for _i, m, _w in _fa(sn) if m.rsplit('::', 1)[0] == 'ephemeralnet::ChunkStore' and m.split('::')[-1] not in ('chunks_', 'chunks_mutex_')})
     ck.ob('C01.list', 'C01.list/snapshot-uncached', not other, sn.loc(),
           'ChunkStore::snapshot reads chunks_ (under chunks_mutex_) and no other member: there is no cached listing (other members touched: %s)' % (other or 'none'))
+
+    # ---- a live local record is always handed out: the local branch of fetch_chunk refuses only when no key material is known ---------
+    from props.common import refusal_reasons
+    from sa.canon import norm as _norm, V as _V, C as _C
+    fc = P.fn(N + 'fetch_chunk')
+    ck.touch(fc)
+    local_if = [i for i in fc.walk() if fc.nodes[i]['k'] == 'IfStmt' and
+                any((fc.nodes[j].get('callee') or '').endswith('::has_value') and any(fc.nodes[x]['k'] == 'DeclRefExpr' and fc.nodes[x].get('n') == 'record' for x in fc.walk(j))
+                    for j in fc.walk(fc.nodes[i]['cond'])) and fc.nodes[fc.strip(fc.nodes[i]['cond'])].get('op') != '!']
+    if len(local_if) != 1:
+        raise AnalysisBroken('fetch_chunk: the `if (record.has_value())` branch serving the local record was not found')
+    branch = fc.nodes[local_if[0]]['then']
+    rr = [(r_, c_) for r_, c_ in refusal_reasons(fc, lambda r: fc.is_in(r, branch) and 'nullopt' in fc.text(r))]
+    extra = [(r_, c_) for r_, conds in rr for c_ in (conds or [('unconditional',)]) if c_ != _norm(('==', _V('shard_threshold'), _C(0)))]
+    ck.floor('C01.get', 'refusing exits in the local branch of fetch_chunk', len(rr), 1)
+    ck.ob('C01.get', 'C01.get/local-refusals-closed', not extra, fc.loc(extra[0][0]) if extra else fc.loc(branch),
+          'once get_record returned a (live) record, fetch_chunk returns nothing only if no usable key shares are known (shard_threshold == 0)'
+          + ('' if not extra else ' — other cause: %r' % (extra[0][1],)))
